@@ -262,6 +262,10 @@ class C09(common.Spec):
                             log.pop()          # refused: the circuit was no longer ready
                         elif kind in ('param', 'unknown'):
                             pass
+                    # "once the simulation has stopped the circuit is not ready": from the moment an error
+                    # or a stop request has reached the simulator, also while the clean-up is still running
+                    if circuit.error is not None and circuit.is_ready():
+                        obs['ready_while_stopping'] = True
                 if not run_task.done():
                     await asyncio.sleep(case['tail_us'] / 1e6)
                 if not run_task.done() and not any(e[0] == 'abort' for e in log):
@@ -279,7 +283,7 @@ class C09(common.Spec):
             err = circuit.error
             obs['error'] = None if err is None else (['cancel'] if isinstance(err, asyncio.CancelledError)
                                                       else ['exc', tag_of(err)])
-            obs['ready_after'] = circuit.is_ready()
+            obs['ready_after'] = circuit.is_ready() or bool(obs.get('ready_while_stopping'))
             obs['finished'] = True
 
         try:
